@@ -30,6 +30,7 @@ THEOREMS = [
     "KrroodVerif.PD.C15_fields_agree",
     "KrroodVerif.PD.C15_fields_closure",
     "KrroodVerif.PD.C15_cex_assign_clobbers",
+    "KrroodVerif.PD.C15_cex_falsy_not_recorded",
     "KrroodVerif.PD.run_eq_closure",
     "KrroodVerif.PD.schema_UClosed",
 ]
@@ -50,6 +51,9 @@ ASSUMPTIONS = [
     "class recorded in the wrapped field (Place.located_in / City.located_in on a City(Place) instance; one descriptor "
     "class attached to two classes) - the model and the observation work on that quotient; collection assignment "
     "is not generated in schema H, where such variants become visible in the fields inside the F-C15-1 trigger",
+    "schema F: classes with their own truthiness (__len__ backed by a mutable attribute, __bool__); instances are "
+    "falsy at some points of a history, as owners and as elements. Truthiness is irrelevant to the closure (an "
+    "instance is just an object), so the specification ignores it; the code's truthiness test is the quirk of F-C15-2",
     "instances that die during a history take part in no relation and play no role (nothing else can die: fields hold "
     "strong references)",
     "inverses always find their field (no ValueError), objects are truthy and compare by "
@@ -84,6 +88,9 @@ def _desc(tag: str) -> dict:
 
 def _world(rng, tag: str):
     """[(class id, role taker index or '-')]; role takers precede the roles that use them"""
+    if tag == "F":
+        # bags (own __len__) and flags (own __bool__)
+        return [(0, "-")] * rng.randint(2, 4) + [(1, "-")] * rng.randint(1, 3)
     if tag == "H":
         # Place, City(Place), Metropolis(City), Region: at least one instance of a subclass and one plain Place
         counts = [rng.randint(1, 2), rng.randint(1, 2), rng.randint(0, 2), rng.randint(0, 2)]
@@ -140,6 +147,19 @@ def _ops(rng, d: dict, objs, n: int, weights=None, usable=None, single_done=None
                 ops.append(f"(assign {f} {s} {' '.join(map(str, xs))})")
             else:
                 ops.append(f"(assign1 {f} {s} {rng.choice(tgts)})")
+    return ops
+
+
+def _with_truthiness_events(rng, objs, ops):
+    """instances of classes with their own __len__ / __bool__ become falsy (and truthy again) at random points of the
+    history: as owners and as elements"""
+    ops = list(ops)
+    for _ in range(rng.randint(1, 3)):
+        o = rng.randrange(len(objs))
+        i = rng.randint(0, len(ops))
+        ops.insert(i, f"(falsy {o})")
+        if rng.random() < 0.6:
+            ops.insert(rng.randint(i + 1, len(ops)), f"(truthy {o})")
     return ops
 
 
@@ -225,18 +245,20 @@ def generate(rng, tier, n):
                 ops += seg
             cases.append(Case(_line(d, objs, ops), ("schema-" + tag, "instance-churn"), "random"))
     for i in range(n):
-        tag = ("U", "U", "D", "D", "H", "D", "H")[i % 7]
+        tag = ("U", "U", "D", "D", "H", "D", "H", "F", "F")[i % 9]
         d = _desc(tag)
         objs = _world(rng, tag)
         # favour the transitive fields and the role: that is where order could matter
         trans_fields = [f for f, (c, name) in enumerate(d["fields"])
                         if name in ("sub_organization_of", "near", "anc", "parent", "desc", "head_of", "rbottom", "owns", "rright", "holds", "held_by",
-                                    "located_in", "capital_of", "contains", "seat_of")]
+                                    "located_in", "capital_of", "contains", "seat_of", "within", "next", "flags")]
         # schema H: no collection assignment — in the trigger region of F-C15-1 the wrapped-field variants the model
         # abstracts from become visible in the fields (a second variant of a known relation is written back)
         ops = _ops(rng, d, objs, rng.randint(1, maxlen), trans_fields, no_assign=(tag == "H"))
         if not ops:
             continue
+        if tag == "F" and i % 18 != 7:   # one in two F histories keeps every instance truthy
+            ops = _with_truthiness_events(rng, objs, ops)
         kinds = tuple(sorted({o.split()[0][1:] for o in ops}))
         cases.append(Case(_line(d, objs, ops), ("schema-" + tag, "order-base") + kinds, "random"))
         if len(ops) > 1:
